@@ -76,11 +76,37 @@ func boolWrapperBody(v ssa.Value) (ssa.Value, bool) {
 		return nil, false
 	}
 	f := c.Call.StaticCallee()
-	if f == nil || f.Blocks == nil || len(f.Blocks) != 1 || f.Pkg == nil || !isModulePkg(f.Pkg.Pkg) {
+	if f == nil || f.Blocks == nil || f.Pkg == nil || !isModulePkg(f.Pkg.Pkg) {
 		return nil, false
 	}
 	if f.Signature.Results().Len() != 1 || !isBoolType(f.Signature.Results().At(0).Type()) {
 		return nil, false
+	}
+	if len(f.Blocks) != 1 {
+		// a helper that does some work and reports one condition it computed ("closed = buf[0] > 0; if closed {...};
+		// return closed"): every return yields the same, non-constant, value
+		var v ssa.Value
+		for _, b := range f.Blocks {
+			ret, ok := b.Instrs[len(b.Instrs)-1].(*ssa.Return)
+			if !ok {
+				continue
+			}
+			if len(ret.Results) != 1 {
+				return nil, false
+			}
+			x := ret.Results[0]
+			if _, isConst := x.(*ssa.Const); isConst {
+				return nil, false
+			}
+			if _, isPhi := x.(*ssa.Phi); isPhi {
+				return nil, false
+			}
+			if v != nil && v != x {
+				return nil, false
+			}
+			v = x
+		}
+		return v, v != nil
 	}
 	b := f.Blocks[0]
 	ret, ok := b.Instrs[len(b.Instrs)-1].(*ssa.Return)
@@ -108,6 +134,15 @@ func callResultAtom(fn *ssa.Function, want bool, args ...int64) Atom {
 	return func(v ssa.Value) (bool, bool) {
 		c, ok := v.(*ssa.Call)
 		if !ok || fn == nil || c.Call.StaticCallee() != fn {
+			// the call replaced by the body of the (one-line, boolean) wrapper: "atomic.LoadInt32(&op.state) == 0" for "op.isUnused()"
+			if len(args) == 0 && fn != nil {
+				if body, isW := wrapperBodyOf(fn); isW {
+					bv, bpol := stripNot(body, true)
+					if sameShape(bv, v, 0) {
+						return want == bpol, true
+					}
+				}
+			}
 			return false, false
 		}
 		for i, a := range args {
@@ -166,6 +201,24 @@ func isConstEq(k int64) func(ssa.Value) bool {
 }
 
 func isCallOf(fn *ssa.Function, args ...int64) func(ssa.Value) bool {
+	var match func(v ssa.Value, depth int) bool
+	match = func(v ssa.Value, depth int) bool {
+		// a loop variable that is re-read by the same call on every way into the test ("for x = f(); ...; x = f()") is a
+		// phi of such calls: still "the result of a call of f"
+		if phi, ok := v.(*ssa.Phi); ok && depth < 2 && len(phi.Edges) > 0 {
+			for _, e := range phi.Edges {
+				if !match(e, depth+1) {
+					return false
+				}
+			}
+			return true
+		}
+		return isCallOf1(fn, args...)(v)
+	}
+	return func(v ssa.Value) bool { return match(v, 0) }
+}
+
+func isCallOf1(fn *ssa.Function, args ...int64) func(ssa.Value) bool {
 	return func(v ssa.Value) bool {
 		for {
 			switch x := v.(type) {
@@ -446,4 +499,86 @@ func gtRel(op token.Token) (bool, bool) {
 		return false, true
 	}
 	return false, false
+}
+
+// wrapperBodyOf: fn is a single-block module function returning one boolean expression.
+func wrapperBodyOf(f *ssa.Function) (ssa.Value, bool) {
+	if f == nil || f.Blocks == nil || len(f.Blocks) != 1 || f.Signature.Results().Len() != 1 || !isBoolType(f.Signature.Results().At(0).Type()) {
+		return nil, false
+	}
+	b := f.Blocks[0]
+	ret, ok := b.Instrs[len(b.Instrs)-1].(*ssa.Return)
+	if !ok || len(ret.Results) != 1 {
+		return nil, false
+	}
+	if _, isConst := ret.Results[0].(*ssa.Const); isConst {
+		return nil, false
+	}
+	return ret.Results[0], true
+}
+
+// sameShape: value v (anywhere) computes the same expression as the wrapper body `pat`, the wrapper's parameters standing
+// for any value of their type. Only pure expression trees are compared (comparisons, arithmetic, field addresses, loads,
+// static and builtin calls, constants).
+func sameShape(pat, v ssa.Value, depth int) bool {
+	if depth > 8 {
+		return false
+	}
+	if p, ok := pat.(*ssa.Parameter); ok {
+		return types.Identical(p.Type(), v.Type())
+	}
+	switch x := pat.(type) {
+	case *ssa.Const:
+		y, ok := v.(*ssa.Const)
+		if !ok {
+			return false
+		}
+		if x.Value == nil || y.Value == nil {
+			return x.Value == nil && y.Value == nil
+		}
+		return x.Value.ExactString() == y.Value.ExactString()
+	case *ssa.BinOp:
+		y, ok := v.(*ssa.BinOp)
+		if !ok {
+			return false
+		}
+		if x.Op == y.Op && sameShape(x.X, y.X, depth+1) && sameShape(x.Y, y.Y, depth+1) {
+			return true
+		}
+		// mirrored comparison
+		mir := map[token.Token]token.Token{token.EQL: token.EQL, token.NEQ: token.NEQ, token.LSS: token.GTR, token.GTR: token.LSS, token.LEQ: token.GEQ, token.GEQ: token.LEQ}
+		if m, ok := mir[x.Op]; ok && m == y.Op {
+			return sameShape(x.X, y.Y, depth+1) && sameShape(x.Y, y.X, depth+1)
+		}
+		return false
+	case *ssa.UnOp:
+		y, ok := v.(*ssa.UnOp)
+		return ok && x.Op == y.Op && sameShape(x.X, y.X, depth+1)
+	case *ssa.FieldAddr:
+		y, ok := v.(*ssa.FieldAddr)
+		return ok && x.Field == y.Field && types.Identical(x.X.Type(), y.X.Type()) && sameShape(x.X, y.X, depth+1)
+	case *ssa.Field:
+		y, ok := v.(*ssa.Field)
+		return ok && x.Field == y.Field && types.Identical(x.X.Type(), y.X.Type()) && sameShape(x.X, y.X, depth+1)
+	case *ssa.Call:
+		y, ok := v.(*ssa.Call)
+		if !ok || len(x.Call.Args) != len(y.Call.Args) || x.Call.IsInvoke() || y.Call.IsInvoke() {
+			return false
+		}
+		if xb, ok := x.Call.Value.(*ssa.Builtin); ok {
+			yb, ok := y.Call.Value.(*ssa.Builtin)
+			if !ok || xb.Name() != yb.Name() {
+				return false
+			}
+		} else if x.Call.StaticCallee() == nil || x.Call.StaticCallee() != y.Call.StaticCallee() {
+			return false
+		}
+		for i := range x.Call.Args {
+			if !sameShape(x.Call.Args[i], y.Call.Args[i], depth+1) {
+				return false
+			}
+		}
+		return true
+	}
+	return false
 }
